@@ -13,3 +13,5 @@ Lemma sel_lemma : sel_ok gen_sel = true.
 Proof. vm_compute. reflexivity. Qed.
 Lemma free_lemma : free_ok gen_free = true.
 Proof. vm_compute. reflexivity. Qed.
+Lemma width_lemma : rc_width64 gen_rc = true.
+Proof. vm_compute. reflexivity. Qed.
